@@ -389,7 +389,11 @@ func Generate(r *rand.Rand, profile string, concurrent bool, av Avoid) *Plan {
 			for j := 0; j < nk; j++ {
 				o.Keys = append(o.Keys, r.IntN(nKeys))
 			}
-			if r.IntN(100) < w.stale {
+			stale := w.stale
+			if concurrent && stale < 25 {
+				stale = 25 // picks on superseded pickers run under a different picker mutex: the interesting overlap
+			}
+			if r.IntN(100) < stale {
 				o.C = 1 + r.IntN(4)
 			}
 			switch r.IntN(10) {
@@ -442,8 +446,41 @@ func Generate(r *rand.Rand, profile string, concurrent bool, av Avoid) *Plan {
 				o.N = 0
 			}
 		}
-		o.ID = i + 1
 		p.Ops = append(p.Ops, o)
+	}
+	// Directed fragment (swarm bias): bind a key, take its home channel down,
+	// then keyed calls on the latest and on superseded pickers. Random histories
+	// reach this conjunction rarely; it is where affinity, fallback and their
+	// locking interact.
+	if (profile == "affinity" || profile == "fallback" || profile == "chaos") && r.IntN(3) == 0 && len(p.Ops) > 4 {
+		k := r.IntN(nKeys)
+		frag := []Op{
+			// bring (up to) three connections up first: the fragment needs a stand-in
+			{K: OpConn, A: 0, B: ConnProgress}, {K: OpConn, A: 0, B: ConnProgress},
+			{K: OpConn, A: 1, B: ConnProgress}, {K: OpConn, A: 1, B: ConnProgress},
+			{K: OpConn, A: 2, B: ConnProgress}, {K: OpConn, A: 2, B: ConnProgress},
+			{K: OpPick, B: MBind, Keys: []int{k}},
+			{K: OpDone, A: -1, B: OutOK, Keys: []int{k}},
+			{K: OpConn, A: -2, B: ConnFail},
+			{K: OpPick, B: MBound, Keys: []int{k}},
+			{K: OpPick, B: MBound, Keys: []int{k}, C: 1 + r.IntN(3)},
+			{K: OpPick, B: MBound, Keys: []int{k}},
+		}
+		if r.IntN(2) == 0 {
+			frag = append(frag, Op{K: OpConn, A: -2, B: ConnProgress}, Op{K: OpConn, A: -2, B: ConnProgress}, Op{K: OpPick, B: MBound, Keys: []int{k}})
+		}
+		if concurrent {
+			for i := range frag {
+				frag[i].N = r.IntN(6)
+			}
+		}
+		at := 3 + r.IntN(len(p.Ops)-3)
+		ops := append([]Op{}, p.Ops[:at]...)
+		ops = append(ops, frag...)
+		p.Ops = append(ops, p.Ops[at:]...)
+	}
+	for i := range p.Ops {
+		p.Ops[i].ID = i + 1
 	}
 	return p
 }
